@@ -15,7 +15,7 @@ it is free — wake-ups are not modelled, the model is polled when the script sa
 namespace Fcgi.Async
 open Fcgi Fcgi.Req Fcgi.Str
 
-inductive RdAns | n (k : Nat) | all | pending
+inductive RdAns | n (k : Nat) | all | pending | err
 deriving Repr, DecidableEq
 inductive WrAns | n (k : Nat) | all | pending | zero | err
 deriving Repr, DecidableEq
@@ -52,6 +52,10 @@ structure Transport where
   events : List String := []
   /-- the peer still holds back input (closed-loop client): an empty input then means "wait", not end-of-stream -/
   hold : Bool := false
+  /-- the task's waker was invoked since the current poll started (a scripted transient `Pending` wakes at once) -/
+  woken : Bool := false
+  /-- a read is parked waiting for input: the transport holds the task's waker -/
+  readWaker : Bool := false
 deriving Repr
 
 namespace Transport
@@ -65,13 +69,14 @@ def read (t : Transport) (cap : Nat) : Transport × Poll (Except IoErr Bytes) :=
     let (a, rest) := match t.rd with | [] => (RdAns.all, []) | a :: r => (a, r)
     let t := { t with rd := rest }
     match a with
-    | .pending => (t.ev s!"R{cap}:P", .pending)
+    | .pending => ({ t with woken := true }.ev s!"R{cap}:P", .pending)
+    | .err => (t.ev s!"R{cap}:E", .ready (.error .transportRead))
     | _ =>
       if t.input.isEmpty then
-        if t.hold then (t.ev s!"R{cap}:W", .pending) else
+        if t.hold then ({ t with readWaker := true }.ev s!"R{cap}:W", .pending) else
         match t.endMode with
         | .eof => (t.ev s!"R{cap}:0", .ready (.ok []))
-        | .pend => (t.ev s!"R{cap}:W", .pending)
+        | .pend => ({ t with readWaker := true }.ev s!"R{cap}:W", .pending)
         | .err => (t.ev s!"R{cap}:E", .ready (.error .transportRead))
       else
         let k := match a with | .n k => min (max k 1) (min cap t.input.length) | _ => min cap t.input.length
@@ -86,7 +91,7 @@ def writeV (t : Transport) (slices : List Bytes) (tag : String) : Transport × P
     let (a, rest) := match t.wr with | [] => (WrAns.all, []) | a :: r => (a, r)
     let t := { t with wr := rest }
     match a with
-    | .pending => (t.ev s!"{desc}:P", .pending)
+    | .pending => ({ t with woken := true }.ev s!"{desc}:P", .pending)
     | .zero => (t.ev s!"{desc}:Z", .ready (.ok 0))
     | .err => (t.ev s!"{desc}:E", .ready (.error .transportWrite))
     | .all => ({ t with wlog := t.wlog ++ data }.ev s!"{desc}:{data.length}", .ready (.ok data.length))
@@ -101,7 +106,7 @@ def flush (t : Transport) : Transport × Poll (Except IoErr Unit) :=
   let t := { t with fl := rest }
   match a with
   | .ok => (t.ev "F:O", .ready (.ok ()))
-  | .pending => (t.ev "F:P", .pending)
+  | .pending => ({ t with woken := true }.ev "F:P", .pending)
   | .err => (t.ev "F:E", .ready (.error .transportFlush))
 
 end Transport
